@@ -134,6 +134,20 @@ pub fn generate(ctx: &mut Ctx) {
             d.insert(n / 2, ".".into());
             d.insert(n / 2, "x".into());
             d.insert(n / 2 + 1, "..".into());
+            // tails that reach back into a byte-identical prefix
+            let last = &segs[n - 1];
+            let prev = &segs[n - 2];
+            let back1 = format!("{}/../{}/x", p, last);
+            let back2 = format!("{}/../../{}/{}/x", p, prev, last);
+            let back_wrong = format!("{}/../{}/x", p, prev);
+            let plain = format!("{}/x", p);
+            for abs in ["", "/"] {
+                for (x, y) in [(plain.clone(), back1.clone()), (plain.clone(), back2.clone()), (plain.clone(), back_wrong.clone()), (back1.clone(), back2.clone()), (format!("{}/", p), format!("{}/x/..", p)), (p.clone(), format!("{}/x/../.", p))] {
+                    ctx.run(Case::new("comp").arg(format!("{}{}", abs, x)).arg(format!("{}{}", abs, y)).num(1));
+                    ctx.run(Case::new("pair").arg(format!("s://h/{}?q", x)).arg(format!("s://h/{}?q", y)));
+                    ctx.run(Case::new("pair").arg(format!("s:{}{}", abs, x)).arg(format!("s:{}{}", abs, y)));
+                }
+            }
             for abs in ["", "/"] {
                 for (x, y) in [(p.clone(), q.join("/")), (p.clone(), r.join("/")), (p.clone(), d.join("/")), (q.join("/"), r.join("/")), (format!("{}/", p), p.clone())] {
                     ctx.run(Case::new("comp").arg(format!("{}{}", abs, x)).arg(format!("{}{}", abs, y)).num(1));
